@@ -120,6 +120,13 @@ def check_validator(fx, rep, b):
                 for o in others:
                     rets_err = any(r.get("k") == "Ret" for r, _ in F.walk(o["body"]))
                     rep.oblige(rets_err, "R08.1", "non-constant-rejected", F.loc(o["span"]), "a non-constant jump operand does not make the validator return an error")
+    # `let KnownData { value, .. } = folded.data() else { return Err(..) }`
+    for st_, _ in F.walk(root):
+        if st_.get("s") == "Let" and st_.get("els") is not None and (F.pat_variants(st_["pat"]) or set()) == {("vm::value::SymbolicValueData", "KnownData")}:
+            els = st_["els"]
+            els_e = els if els.get("k") else {"k": "Block", "block": els}
+            kd = True
+            rep.oblige(T.diverges(els_e) and any(r.get("k") == "Ret" for r, _ in F.walk(els_e)), "R08.1", "non-constant-rejected", F.loc(st_["span"]), "a non-constant jump operand does not make the validator return an error")
     rep.oblige(kd, "R08.1", "constant-only", w, "the validator does not select the constant (KnownData) case of the folded operand")
     # (b) instruction exists at target, (c) is JumpDest; both before the Ok and on the same local
     inst_calls = []
